@@ -92,6 +92,7 @@ class Ctx:
         self.worst = {}               # name -> [worst normalised error, tolerance]
         self.info = {}                # free-form evidence from monitors
         self.required = set()         # classes that must be observed
+        self.on_begin = []            # callables run before every case (probe state resets)
         self.cur_group = None
         self.cur_idx = None
         self.cur_case = {}
@@ -104,6 +105,8 @@ class Ctx:
     def begin(self, gname, idx):
         self.cur_group, self.cur_idx, self.cur_case = gname, idx, {}
         self.cases[gname] += 1
+        for fn in self.on_begin:
+            fn()
 
     def describe(self, **kw):
         """explicit description of the current case (goes to samples and witness files)"""
@@ -204,6 +207,9 @@ def run_groups(ctx, groups, only_group=None, only_idx=None, case_timeout=300):
                 fn(ctx, rng, idx)
             except Skip as e:
                 ctx.skip("case:" + (str(e) or "skip"))
+            except np.linalg.LinAlgError:
+                # singular/NaN implicit system: the generated state left the admissible set (e.g. negative depth at a face)
+                ctx.skip("case:LinAlgError")
             except CaseTimeout:
                 ctx.harness_error("case watchdog (%ds) fired" % case_timeout)
             except Budget as e:
